@@ -379,6 +379,7 @@ def main(prop, argv=None):
     ap.add_argument("--no-evidence", action="store_true")
     ap.add_argument("--evidence-dir", default=os.path.join(VERIF, "evidence"))
     ap.add_argument("--dump-case", type=int, default=None, help="print the case of run index i and exit")
+    ap.add_argument("--dump-results", default=None, help="write per-run fingerprints (determinism self-test)")
     args = ap.parse_args(argv)
 
     if args.replay:
@@ -403,6 +404,13 @@ def main(prop, argv=None):
     agg = explore(prop, args.tier, args.seed, args.jobs, runs, budget_s, run_timeout_s)
     results = agg["results"]
     known = load_known()
+    if args.dump_results:
+        fp = {str(i): {"seed": r.get("seed"), "key": r.get("key"), "steps": r.get("steps"), "evals": r.get("evals"),
+                       "probes": r.get("probes"), "faults": r.get("faults"),
+                       "violations": [[v.get("class"), v.get("clause")] for v in (r.get("violations") or [])],
+                       "harness_error": bool(r.get("harness_error"))}
+              for i, r in sorted(results.items())}
+        _write_json(args.dump_results, fp)
 
     # ---- classify
     new_viols = []  # (idx, viol, case)
